@@ -740,16 +740,31 @@ def process_level(ctx, proc, drv, info):
     ncorpus = len(scs)
     for _ in range(nsc):
         scs.append(gen_scenario(ctx, maxc))
+    # concurrent first use (binding off: the harness threads spin, and a pinned winner would share one cpu with them)
+    rsc = []
+    nr = 4 if not ctx.thorough else 16
+    for i in range(nr):
+        K, nw = r.choice([2, 3, 4, 6]), r.choice([1, 2, 2, 3])
+        C = 100 if not ctx.thorough else 150
+        rsc.append({"race": True, "K": K, "C": C, "nw": nw,
+                    "env": {"MYTH_NUM_WORKERS": str(nw).encode().hex(), "MYTH_CPU_LIST": b"x".hex(), "MYTH_BIND_WORKERS": b"0".hex()}})
+    t0 = time.time()
+
+    def one(sc):
+        if sc.get("race"):
+            return run_proc([proc, "race", str(sc["K"]), str(sc["C"])], base_env(sc), 90)
+        return run_proc([proc, "hist", sc["spec"]], base_env(sc), 40)
+    from concurrent.futures import ThreadPoolExecutor
+    with ThreadPoolExecutor(max_workers=4) as ex:
+        runs = list(ex.map(one, scs + rsc))
     pfail, pdiff = [], []
     kinds, results = {}, {"ok": 0}
     migrated = cycles = 0
     protos, outs = [], []
-    t0 = time.time()
-    for sc in scs:
+    for sc, (rc, out, err) in zip(scs, runs):
         for name, k in sc.get("kinds", {}).items():
             kinds.setdefault(name, {})
             kinds[name][k] = kinds[name].get(k, 0) + 1
-        rc, out, err = run_proc([proc, "hist", sc["spec"]], base_env(sc), 30)
         msg = hist_oracle(sc, info, rc, out, err)
         cycles += len(sc["spec"].split(","))
         migrated += len([1 for l in out.split("\n") if re.search(r" mig=[1-9]", l)])
@@ -758,7 +773,6 @@ def process_level(ctx, proc, drv, info):
             results["fail"] = results.get("fail", 0) + 1
         else:
             results["ok"] += 1
-        nws, stk, bind = expected_hist(sc, info)
         env = {k: bytes.fromhex(v) for k, v in sc["env"].items()}
         e1, e2 = env.get("MYTH_NUM_WORKERS"), env.get("MYTH_WORKER_NUM")
         protos.append(proto_case(sc, info, impl_envnw(drv, info, e1, e2)))
@@ -768,16 +782,10 @@ def process_level(ctx, proc, drv, info):
         b = canon_model(mlines[i]) if i < len(mlines) else "<no output>"
         if outs[i] != b:
             pdiff.append((sc, outs[i], b))
-    # concurrent first use
     races = []
-    nr = 3 if not ctx.thorough else 12
-    for i in range(nr):
-        K, nw = r.choice([2, 3, 4, 6]), r.choice([1, 2, 2, 3])
-        C = 120 if not ctx.thorough else 250
-        sc = {"race": True, "K": K, "C": C, "nw": nw, "env": {"MYTH_NUM_WORKERS": str(nw).encode().hex(), "MYTH_CPU_LIST": b"x".hex()}}
-        rc, out, err = run_proc([proc, "race", str(K), str(C)], base_env(sc), 60)
-        msg = race_oracle(rc, out, err, K, C, nw)
-        races.append({"K": K, "C": C, "nw": nw, "ok": msg is None})
+    for sc, (rc, out, err) in zip(rsc, runs[len(scs):]):
+        msg = race_oracle(rc, out, err, sc["K"], sc["C"], sc["nw"])
+        races.append({"K": sc["K"], "C": sc["C"], "nw": sc["nw"], "ok": msg is None})
         if msg:
             pfail.append((sc, rc, out, err, msg))
     stat = {"process_scenarios": len(scs), "process_corpus": ncorpus, "process_cycles": cycles, "process_cycles_main_migrated": migrated,
